@@ -503,6 +503,8 @@ func catalogue() []methodSpec {
 				(&hscom.SyncBlockHeaderParam{ChainID: routerChain(utils.ETH_ROUTER), Address: o, Headers: [][]byte{{1, 2, 3}}}).Serialization(s)
 			})
 		}},
+		methodSpec{"side_chain_manager registerRedeem", "none", scm, side_chain_manager.REGISTER_REDEEM, registerRedeemArgs},
+		methodSpec{"side_chain_manager setBtcTxParam", "none", scm, side_chain_manager.SET_BTC_TX_PARAM, setBtcTxParamArgs},
 		methodSpec{"neo3_state_manager getCurrentStateValidator", "none", sv, neo3_state_manager.GET_CURRENT_STATE_VALIDATOR, func(o common.Address, v int) []byte { return []byte{} }},
 	)
 	return specs
